@@ -63,6 +63,7 @@ type Term struct {
 	Name   string
 	ID     int
 	HasMul bool // contains mul/div/rem by non-trivial operands (routing hint)
+	MulC   int  // longest chain of multiplications by constants
 }
 
 type key struct {
@@ -110,11 +111,30 @@ func intern(t *Term) *Term {
 	t.ID = nextID
 	nextID++
 	Created++
-	switch t.Op {
-	case OpBvMul, OpBvUdiv, OpBvSdiv, OpBvUrem, OpBvSrem:
-		t.HasMul = true
+	// HasMul: contains a division/remainder, a product of two non-constants,
+	// or a chain of five or more multiplications by constants (the kernels the
+	// bit-blasting back ends do not finish; routed to integer blasting)
+	for _, c := range []*Term{t.A, t.B, t.C} {
+		if c != nil {
+			if c.HasMul {
+				t.HasMul = true
+			}
+			if c.MulC > t.MulC {
+				t.MulC = c.MulC
+			}
+		}
 	}
-	if t.A != nil && t.A.HasMul || t.B != nil && t.B.HasMul || t.C != nil && t.C.HasMul {
+	switch t.Op {
+	case OpBvUdiv, OpBvSdiv, OpBvUrem, OpBvSrem:
+		t.HasMul = true
+	case OpBvMul:
+		if t.A.IsConst() || t.B.IsConst() {
+			t.MulC++
+		} else {
+			t.HasMul = true
+		}
+	}
+	if t.MulC >= 5 {
 		t.HasMul = true
 	}
 	table[k] = t
@@ -335,6 +355,9 @@ func Eq(a, b *Term) *Term {
 			}
 			return intern(&Term{Op: OpEq, A: a, B: b})
 		}
+		if b.IsConst() && a.Op == OpIte && !(a.B.IsConst() && a.C.IsConst()) && constLeaves(a, 0) {
+			return rw(func() *Term { return raw(&Term{Op: OpEq, A: a, B: b}) }, Ite(a.A, Eq(a.B, b), Eq(a.C, b)))
+		}
 		if b.IsConst() && a.Op == OpIte && a.B.IsConst() && a.C.IsConst() {
 			x, y := a.B.Val == b.Val, a.C.Val == b.Val
 			switch {
@@ -528,6 +551,26 @@ func Bin(op Op, a, b *Term) *Term {
 			}
 			if op == OpBvSub {
 				return rw(mkraw, Bin(OpBvAdd, a, Const(w, -b.Val)))
+			}
+		}
+		// lift an operation with a constant through an ite whose leaves are constants
+		if b.IsConst() && a.Op == OpIte && constLeaves(a, 0) {
+			return rw(mkraw, Ite(a.A, Bin(op, a.B, b), Bin(op, a.C, b)))
+		}
+		// narrow additions and multiplications whose operands are provably small
+		// (zero-extended bytes, small constants): compute in k bits, then extend
+		if (op == OpBvAdd || op == OpBvMul) && w > 8 {
+			ka, kb := ubits(a), ubits(b)
+			k := ka + kb
+			if op == OpBvAdd {
+				k = ka + 1
+				if kb > ka {
+					k = kb + 1
+				}
+			}
+			if k < w && (a.Op == OpZext || b.Op == OpZext) {
+				na, nb := Extract(k-1, 0, a), Extract(k-1, 0, b)
+				return rw(mkraw, Zext(Bin(op, na, nb), w))
 			}
 		}
 		if a == b {
@@ -1034,4 +1077,38 @@ func Abstract(raw, res *Term, depth int) (*Term, *Term) {
 		return r
 	}
 	return araw, sub(res)
+}
+
+// ubits returns k such that t < 2^k is structurally evident (k <= t.W).
+func ubits(t *Term) int {
+	switch t.Op {
+	case OpConst:
+		return bits.Len64(t.Val)
+	case OpZext:
+		return ubits(t.A)
+	case OpIte:
+		a, b := ubits(t.B), ubits(t.C)
+		if a > b {
+			return a
+		}
+		return b
+	case OpBvAnd:
+		a, b := ubits(t.A), ubits(t.B)
+		if a < b {
+			return a
+		}
+		return b
+	}
+	return t.W
+}
+
+// constLeaves reports whether t is a tree of ites over constants (bounded depth).
+func constLeaves(t *Term, d int) bool {
+	if t.IsConst() {
+		return true
+	}
+	if t.Op != OpIte || d > 600 {
+		return false
+	}
+	return constLeaves(t.B, d+1) && constLeaves(t.C, d+1)
 }
